@@ -19,6 +19,7 @@ type srcCase struct {
 	Fam     string `json:"fam"`
 	Prog    []any  `json:"prog"`
 	Tape    any    `json:"tape"`
+	PLen    int    `json:"plen"`
 	Ideal   []any  `json:"ideal"`
 	Same    bool   `json:"same"`
 	AsBuilt []any  `json:"asbuilt"`
